@@ -815,7 +815,23 @@ func Main(itfs []Interface) {
 	only := flag.String("only", "", "run only this interface.action (IDL name)")
 	skip := flag.String("skip", "", "comma separated interface.action list to skip")
 	sock := flag.String("sock", "", "unix socket path")
+	shard := flag.String("shard", "0/1", "run the actions whose index is i modulo n")
+	deadline := flag.Int64("deadline", 0, "unix time after which no further action is started")
 	flag.Parse()
+	var shI, shN int
+	if _, err := fmt.Sscanf(*shard, "%d/%d", &shI, &shN); err != nil || shN < 1 {
+		shI, shN = 0, 1
+	}
+	// die with the parent (a killed check must not leave servers behind)
+	ppid := os.Getppid()
+	go func() {
+		for {
+			time.Sleep(time.Second)
+			if os.Getppid() != ppid {
+				os.Exit(4)
+			}
+		}
+	}()
 	skipSet := map[string]bool{}
 	for _, s := range strings.Split(*skip, ",") {
 		if s != "" {
@@ -843,6 +859,7 @@ func Main(itfs []Interface) {
 	if err != nil {
 		fatal("session: %v", err)
 	}
+	idx := 0
 	for _, itf := range itfs {
 		p, err := itf.NewProxy(session)
 		if err != nil {
@@ -851,8 +868,17 @@ func Main(itfs []Interface) {
 		pv := reflect.ValueOf(p)
 		for _, a := range itf.Actions {
 			key := itf.Name + "." + a.Kind + ":" + a.IDLName
+			idx++
+			if *only == "" && (idx-1)%shN != shI {
+				continue
+			}
 			if (*only != "" && *only != key) || skipSet[key] {
 				continue
+			}
+			if *deadline > 0 && time.Now().Unix() >= *deadline {
+				enc.Encode(map[string]string{"done": "deadline"})
+				os.Remove(*sock)
+				os.Exit(0)
 			}
 			enc.Encode(map[string]string{"begin": key})
 			res := &Result{Itf: itf.Name, Atom: a.Atom, Kind: a.Kind, IDLName: a.IDLName}
